@@ -451,6 +451,10 @@ Section Engine.
 
   Definition seq_elem (fl : nat) (d : seq_d) (len start_idx : N) (terms : list N) (st : sstate) (e : N)
     : res step_r :=
+    (* a failed sequence answers with the empty match at [start_idx] (repo commit "fix: a failed Sequence
+       reports its empty match at its start ..."); before that fix the three failure exits returned
+       [empty_at idx], the cursor after the skipped gap - [max_idx] when the tokens had run out, which
+       [match_bracketed] below took for a complete Strict content (notes/C02.md, finding F2) *)
     ie <- info e ;;
     match n_node ie with
     | GCond k en => ROk (Cont (mkS (s_matched st) (s_max st) (s_ins st) (s_ch st) (s_first st)
@@ -463,7 +467,7 @@ Section Engine.
         if max_idx <=? idx then
           o <- opt_of e ;;
           if o then ROk (Cont st)
-          else if pmode_eqb (sq_mode d) Strict || (matched_idx =? start_idx) then ROk (Ret (empty_at idx))
+          else if pmode_eqb (sq_mode d) Strict || (matched_idx =? start_idx) then ROk (Ret (empty_at start_idx))
           else ROk (Ret (MR start_idx matched_idx (Some (MKind (k_unparsable g)))
                             (s_ins st ++ map (fun k => (matched_idx, k)) (s_buf st)) (s_ch st)))
         else
@@ -472,8 +476,8 @@ Section Engine.
           if negb (has_match em) then
             o <- opt_of e ;;
             if o then ROk (Cont st)
-            else if pmode_eqb (sq_mode d) Strict then ROk (Ret (empty_at idx))
-            else if pmode_eqb (sq_mode d) GreedyOnceStarted && (matched_idx =? start_idx) then ROk (Ret (empty_at idx))
+            else if pmode_eqb (sq_mode d) Strict then ROk (Ret (empty_at start_idx))
+            else if pmode_eqb (sq_mode d) GreedyOnceStarted && (matched_idx =? start_idx) then ROk (Ret (empty_at start_idx))
             else if matched_idx =? start_idx then ROk (Ret (unparsable start_idx max_idx))
             else
               u <- skip_fwd len matched_idx max_idx ;;
